@@ -96,6 +96,20 @@ class RecHeader:
     def mjd_after_nsamps(self, n):
         return ("mjd_after_nsamps", n)
 
+    def __getattr__(self, name):
+        # anything else the library asks of a header (band geometry, ids, ...) is the real Header's own property / method
+        # evaluated on this stand-in's fields
+        if name.startswith("__"):
+            raise AttributeError(name)
+        from sigpyproc.header import Header
+        a = Header.__dict__.get(name)
+        if isinstance(a, property):
+            return a.fget(self)
+        if callable(a):
+            import types as _t
+            return _t.MethodType(a, self)
+        raise AttributeError(name)
+
     def new_header(self, update_dict=None):
         h = RecHeader(self.nchans, self.nsamples, self.nbits, self.fch1, self.foff, self.tsamp, parent=self,
                       updates=dict(update_dict or {}))
